@@ -13,7 +13,7 @@ EXPLANATION = ("Deductive: xray_wavelength/xray_energy (E*lambda == hc 1e7, roun
 
 
 def units(tier):
-    return [A.U_XWAVELENGTH, A.U_XENERGY, A.U_XROUNDTRIP] + A.U_SCATTERING_FACTORS + A.U_XRAY_SLD + A.U_INDEX_OF_REFRACTION
+    return [A.U_XWAVELENGTH, A.U_XENERGY, A.U_XROUNDTRIP] + A.U_SCATTERING_FACTORS + A.U_XRAY_SLD + A.U_INDEX_OF_REFRACTION + A.U_FXRAY_KEYS
 
 
 def runner_tasks(tier):
